@@ -40,6 +40,7 @@ def sym(name, deps=EMPTY):
 
 class State(object):
     __slots__ = ('env', 'facts', 'extra', '_key')
+    strip_deps = True
 
     def __init__(self, env=None, facts=None, extra=None):
         self.env = env or {}
@@ -57,6 +58,8 @@ class State(object):
 
     def set(self, path, value):
         s = self.copy()
+        if State.strip_deps and value.deps:
+            value = value._replace(deps=EMPTY)
         s.env[path] = value
         return s
 
@@ -82,6 +85,7 @@ class Domain(object):
         self.violations = []       # (rule-id, node, state, message)
         self.visited_pairs = 0
         self._owner_cache = {}
+        self._live_cache = {}
 
     # ------------------------------------------------------------------ hooks
     def initial_states(self):
@@ -282,6 +286,18 @@ class Domain(object):
         v = self._container(e, list(e.keys) + list(e.values), frame, state, 'dict')
         return v
 
+    def e_BinOp(self, e, frame, state):
+        l = self.eval(e.left, frame, state)
+        r = self.eval(e.right, frame, state)
+        return V('obj', ('binop', type(e.op).__name__, l.name, r.name), frozenset(set(l.deps) | set(r.deps)))
+
+    def e_JoinedStr(self, e, frame, state):
+        deps = set()
+        for x in e.values:
+            if isinstance(x, ast.FormattedValue):
+                deps |= self.eval(x.value, frame, state).deps
+        return V('obj', ('fstring', self.site(e)), frozenset(deps))
+
     def e_Lambda(self, e, frame, state):
         return V('closure', (id(e), frame.id), frozenset({'lambda@%s' % getattr(e, 'lineno', '?')}))
 
@@ -396,7 +412,12 @@ class Domain(object):
             return self._assume_truth(n[1], state, not truthy)
         return self._assume_truth(n, state, truthy)
 
+    def track_fact(self, name):
+        return True
+
     def _assume_truth(self, name, state, truthy):
+        if not self.track_fact(name):
+            return state
         f = state.facts.get(name, (None, None))
         if f[1] is not None:
             return state if f[1] == truthy else None
@@ -407,6 +428,8 @@ class Domain(object):
         return s
 
     def _assume_none(self, name, state, isnone):
+        if not self.track_fact(name):
+            return state
         f = state.facts.get(name, (None, None))
         if f[0] is not None:
             return state if f[0] == isnone else None
@@ -442,7 +465,8 @@ class Domain(object):
         return state
 
     def mark_dirty(self, base, state):
-        if base.kind == 'obj':
+        if base.kind == 'obj' and any(k[0] == 'F' and v.name == base.name and v.kind == 'obj'
+                                      for k, v in state.env.items()):
             d = state.extra.get('dirty', frozenset())
             if base.name not in d:
                 return state.with_extra(dirty=d | {base.name})
@@ -457,7 +481,7 @@ class Domain(object):
         k = node.kind
         fr = node.frame
         if k == 'stmt':
-            return [(None, self.t_stmt(node, state))]
+            return [(None, self.cleanup(node, self.t_stmt(node, state)))]
         if k == 'call':
             return self.t_call(node, state)
         if k == 'enter':
@@ -546,7 +570,7 @@ class Domain(object):
         recv = None
         if isinstance(c, ast.Call) and isinstance(c.func, ast.Attribute):
             recv = self.eval(c.func.value, fr, state)
-        st = state
+        st = self.on_call_attempt(node, t, state)
         # mutating method calls on tracked containers
         if recv is not None and isinstance(c.func, ast.Attribute) and c.func.attr in MUTATING_METHODS:
             st = self.mark_dirty(recv, st)
@@ -578,6 +602,9 @@ class Domain(object):
         return outs
 
     def on_raise(self, node, target, state):
+        return state
+
+    def on_call_attempt(self, node, target, state):
         return state
 
     def t_enter(self, node, state):
@@ -618,7 +645,7 @@ class Domain(object):
                 v = b[1]
             else:
                 continue
-            st.env[('L', callee.id, p)] = v
+            st.env[('L', callee.id, p)] = v._replace(deps=EMPTY) if State.strip_deps and v.deps else v
         return self.on_stmt(node, st)
 
     def t_leave(self, node, state):
@@ -631,7 +658,7 @@ class Domain(object):
         for k in [k for k in st.env if k[1] == cid and k[0] in ('L', 'R', 'RV')]:
             del st.env[k]
         if mode == 'value' and node.ast is not None:
-            st.env[('R', fr.id, id(node.ast))] = rv
+            st.env[('R', fr.id, id(node.ast))] = rv._replace(deps=EMPTY) if State.strip_deps and rv.deps else rv
         return self.on_stmt(node, st)
 
     def t_branch(self, node, state):
@@ -647,8 +674,63 @@ class Domain(object):
         for lab, truthy in (('true', True), ('false', False)):
             s = self.assume(v, state, truthy)
             if s is not None:
-                outs.append((lab, s))
+                outs.append((lab, self.cleanup(node, s)))
         return outs
+
+    # ------------------------------------------------------------------ state hygiene (precision-neutral)
+    def cleanup(self, node, state):
+        """drop call-result temporaries of this frame (consumed by the statement that hoisted them) and locals
+        that are dead after this statement"""
+        fid = node.frame.id
+        line = node.line
+        dead = [k for k in state.env if (k[0] == 'R' and k[1] == fid and not node.info.get('comp')) or
+                (k[0] == 'L' and k[1] == fid and line is not None and self.dead_after(node.frame.func, k[2], line))]
+        if node.info.get('what') in ('comp-target', 'for-target'):
+            dead = [k for k in dead if k[0] != 'R']
+        if not dead:
+            return state
+        st = state.copy()
+        for k in dead:
+            del st.env[k]
+        return st
+
+    def dead_after(self, func, name, line):
+        info = self._live_cache.get(id(func))
+        if info is None:
+            info = self._liveness(func)
+            self._live_cache[id(func)] = info
+        last = info.get(name)
+        if last is None:
+            return False        # unknown: keep
+        return line > last
+
+    def _liveness(self, func):
+        """name -> last source line at which the local may still be read (inf if read by a nested function)"""
+        from .loader import walk_own
+        inf = float('inf')
+        last = {}
+        loops = []
+        for n in walk_own(func.node):
+            if isinstance(n, (ast.For, ast.While)):
+                loops.append((n.lineno, getattr(n, 'end_lineno', n.lineno)))
+            if isinstance(n, (ast.ListComp, ast.SetComp, ast.DictComp, ast.GeneratorExp)):
+                loops.append((n.lineno, getattr(n, 'end_lineno', n.lineno)))
+        for n in walk_own(func.node):
+            if isinstance(n, ast.Name) and isinstance(n.ctx, ast.Load):
+                ln = getattr(n, 'end_lineno', n.lineno)
+                for a, b in loops:
+                    if a <= n.lineno <= b:
+                        ln = max(ln, b)
+                last[n.id] = max(last.get(n.id, 0), ln)
+            elif isinstance(n, (ast.FunctionDef, ast.Lambda)):
+                for m in ast.walk(n):
+                    if isinstance(m, ast.Name):
+                        last[m.id] = inf
+        # parameters never read are dead from the start; stored-only locals likewise (line 0)
+        for nm in self._locals_of(func):
+            last.setdefault(nm, 0)
+        # a finally / except body executes after later lines of its try body only textually-later: safe.
+        return last
 
     # ------------------------------------------------------------------ propagation
     def run(self, max_pairs=400000):
